@@ -67,7 +67,7 @@ def mkSubCtx (r : Rule) (proto : Inst) (nti : Nat) : SubCtx :=
   let wdMask := if wdMask / 2 = 0 then wdMask ||| 0b11111110 else wdMask
   let (posdMask, negdMask) := domMasks r.dom
   { r, proto, nti, inter := r.inter % u32, wdMask, mMask := monMask r.mon, posdMask, negdMask,
-    HMask := hourMask r.H, MMask := min64Mask r.M, SMask := min64Mask r.S, e := makeEnum proto r }
+    HMask := hourMask r.H, MMask := min64Mask r.M, SMask := min64Mask r.S, e := makeEnum { proto with H := if proto.H = allDay then 0 else proto.H } r }   -- `pr.H = H`: an all-day seed is midnight here
 
 /-- 2049-2061 (2292-2304, 2559-2574): the weekday, month and day-of-month tests of the loop body; `true` = one of
 them filters the day.  `w` is 1..7 and `m` 1..12 here; `maxd - d` wraps when the proto's day exceeds its month. -/
